@@ -274,6 +274,42 @@ def kinds_rule(prog, chk):
     chk.floor("C06k-kinded", nk, 10)
 
 
+def ball_count_rule(prog, chk):
+    """C06b - the number of points asked from the ball tree is bounded by the number of points it holds (the tree refuses
+    k > n and the search then fails for EVERY target, although 'the nmaxi closest' are simply all the samples)."""
+    n = 0
+    for f in sorted(prog.funcs, key=lambda x: (x.file, x.line)):
+        if f.body is None or not f.cls or not (f.cls == "ANeigh" or "ANeigh" in prog.bases(f.cls)):
+            continue
+        for c in f.calls():
+            if c["k"] != "MCall" or (c.get("callee") or "") not in ("Ball::getIndices", "Ball::queryOneAsVDFromSP", "Ball::queryOneAsVD", "Ball::queryOne"):
+                continue
+            a = call_args(c)
+            k = a[-1] if a else None
+            n += 1
+            chk.analysed(f)
+
+            def bounded(e, depth=0):
+                while e is not None and e["k"] == "Cast":
+                    e = e["c"][0]
+                if e is None or depth > 3:
+                    return False
+                if e["k"] == "Cond":           # MIN(a, b) expands to a conditional on a comparison of its two operands
+                    txt = show(e)
+                    return "getSampleNumber" in txt or "nech" in txt or "size()" in txt
+                if e["k"] in ("Call", "MCall") and (e.get("callee") or "").split("::")[-1] in ("min", "MIN"):
+                    return True
+                if e["k"] == "DeclRefExpr" and e.get("dk") == "var":
+                    d = single_def(f, e["d"])
+                    return d is not None and d is not e and bounded(d, depth + 1)
+                return False
+            ok = bounded(k)
+            chk.ob("C06b", "%s: the count passed to the ball tree is bounded by the number of samples" % f.name, f.loc(c), ok,
+                   detail=None if ok else "`%s` is passed as it is: when it exceeds the number of samples the tree refuses the query and the "
+                   "neighbourhood of every target is empty" % show(k)[:30], key="C06b|%s|%s" % (f.name, c["callee"].split("::")[-1]))
+    chk.floor("C06b", n, 1)
+
+
 def distance_rule(prog, chk):
     """C06h - the distance used by the ball tree is a file-static function pointer set by define_dist_function() when a tree is
     built.  For every documented choice (a user function; default 1 = Euclidean, 2 = Manhattan) every path through the function
@@ -405,4 +441,5 @@ def main(tier):
     sort_rule(prog, chk)
     kinds_rule(prog, chk)
     distance_rule(prog, chk)
+    ball_count_rule(prog, chk)
     return chk.finish()
